@@ -365,7 +365,15 @@ func (e *Engine) writeReplay(prop string, o *Obligation, tier string) string {
 	return path
 }
 
-var notReached = map[string]string{}
+var notReached = loadNotReached()
+
+func loadNotReached() map[string]string {
+	out := map[string]string{}
+	if data, err := os.ReadFile(filepath.Join(verifRoot, "notreached.json")); err == nil {
+		json.Unmarshal(data, &out)
+	}
+	return out
+}
 
 // ---------------------------------------------------------------------------
 // Replay corpus: /verif/replay_corpus/index.json lists concrete tests (package rosmar, injected with -overlay, nothing
